@@ -1900,3 +1900,177 @@ Lemma vector_cells_refuted :
 Proof.
   split; vm_compute; reflexivity.
 Qed.
+
+(* ====================================================================================== *)
+(* 13. [wf] spelled out; typed carriers whose elements are cells                             *)
+(* ====================================================================================== *)
+
+Lemma wf_native_char n v : wf_native n v = rust_native n v && negb (domain_excl n v).
+Proof.
+  destruct n; destruct v; cbn [wf_native rust_native domain_excl negb];
+    try (rewrite andb_true_r; reflexivity); try reflexivity.
+  - rewrite negb_involutive. destruct (ascii_valid s) eqn:E; [rewrite (ascii_utf8 _ E); reflexivity|symmetry; apply andb_false_r].
+  - rewrite negb_involutive. destruct (ascii_valid s) eqn:E; [rewrite (ascii_utf8 _ E); reflexivity|symmetry; apply andb_false_r].
+  - rewrite negb_involutive. unfold in_range, time_max.
+    destruct ((0 <=? z)%Z && (z <=? 86399999999999)%Z) eqn:E; [|symmetry; apply andb_false_r].
+    rewrite andb_true_r. apply andb_true_iff in E as [E1 E2]. symmetry. apply andb_true_iff. lia.
+Qed.
+
+Lemma rbind_ok_id (r : sres) : rbind r (fun b => Ok b) = r.
+Proof. destruct r; reflexivity. Qed.
+
+Lemma ser_concat_ext {A} (f g : A -> sres) l : (forall x, f x = g x) -> ser_concat f l = ser_concat g l.
+Proof. intros H. induction l as [|x l IH]; [reflexivity|]. cbn [ser_concat]. rewrite H, IH. reflexivity. Qed.
+
+Lemma ser_concat_map {A B} (h : A -> B) (f : B -> sres) l : ser_concat f (map h l) = ser_concat (fun x => f (h x)) l.
+Proof. induction l as [|x l IH]; [reflexivity|]. cbn [map ser_concat]. rewrite IH. reflexivity. Qed.
+
+(* without null / unset elements the typed carriers write what the dynamic value writes *)
+Lemma ser_vector_cells_vals e d vs :
+  ser_vector_cells e d (map CVal vs) = ser_cell (TVector e d) (CVal (CVector vs)).
+Proof.
+  unfold ser_vector_cells, ser_cell. cbv zeta. cbn [ser_cell_ws ser_value]. unfold ser_vector.
+  rewrite map_length. destruct (negb _); [reflexivity|].
+  assert (E : ser_concat (match type_size e with
+                          | Some _ => ser_cell_ws false e
+                          | None => fun c => rbind (ser_cell_ws false e c) (fun b => Ok (uvint_encode (blen b mod two64) ++ b))
+                          end) (map CVal vs)
+            = ser_concat (if match type_size e with Some _ => true | None => false end
+                          then ser_value false e else vec_var_elem (ser_value false e)) vs).
+  { rewrite ser_concat_map. apply ser_concat_ext. intros x.
+    destruct (type_size e); unfold vec_var_elem; cbn [ser_cell_ws]; rewrite rbind_ok_id; reflexivity. }
+  rewrite E.
+  destruct (ser_concat _ vs) as [bs|err]; [|reflexivity]. cbn [rbind].
+  destruct (finish true bs); reflexivity.
+Qed.
+
+Lemma ser_sequence_cells_vals e vs :
+  ser_sequence_cells e (map CVal vs) = ser_cell (TList e) (CVal (CList vs)).
+Proof.
+  unfold ser_sequence_cells, ser_cell, ser_cell_ws. cbn [ser_value]. unfold ser_sequence.
+  rewrite map_length. destruct (i32_max <? _); [reflexivity|].
+  rewrite ser_concat_map.
+  rewrite (ser_concat_ext _ (sub_sized (ser_value true e))) by (intros x; reflexivity).
+  destruct (ser_concat _ vs) as [bs|err]; [|reflexivity]. cbn [rbind].
+  destruct (finish true _); reflexivity.
+Qed.
+
+Lemma ser_cell_ws_true_inv e c p : cell_ok e c -> ser_cell_ws true e c = Ok p ->
+  match c with
+  | CNull => p = null_marker
+  | CUnset => p = unset_marker
+  | CVal v => exists bx, ser_value true e v = Ok bx /\ p = framed bx /\ blen bx <= i32_max
+  end.
+Proof.
+  intros Hc H. destruct c as [| |v]; cbn [ser_cell_ws] in H.
+  - inv H. reflexivity.
+  - inv H. reflexivity.
+  - apply rbind_ok in H as (bx & Hbx & H). inv H. destruct Hc as [Hw _].
+    exists bx. repeat split; [exact Hbx|]. eapply ser_sized_bound; eassumption.
+Qed.
+
+Lemma deser_items_cells_rt fd (g : cell -> cell) (cs : list cell) ps :
+  Forall2 (fun c p => (exists mk, (mk = null_marker \/ mk = unset_marker) /\ p = mk /\ g c = CNull) \/
+                      (exists bx x, p = framed bx /\ blen bx <= i32_max /\ fd bx = Ok x /\ g c = CVal x)) cs ps ->
+  forall rest fuel, (List.length (concat ps ++ rest) < fuel)%nat ->
+  deser_items_cells fd fuel (N.of_nat (List.length cs)) (concat ps ++ rest) = Ok (map g cs).
+Proof.
+  induction 1 as [|c p cs ps Hp HF IH]; intros rest fuel Hfuel.
+  - destruct fuel; reflexivity.
+  - destruct fuel as [|fuel]; [lia|]. cbn [List.length deser_items_cells]. rewrite of_nat_S_nz.
+    rewrite concat_cons_app. rewrite concat_cons_app in Hfuel.
+    destruct Hp as [(mk & Hmk & -> & Hg) | (bx & x & -> & Hb & Hf & Hg)].
+    + assert (Hr : read_cql_bytes (mk ++ concat ps ++ rest) = Some (None, concat ps ++ rest))
+        by (destruct Hmk as [-> | ->]; [apply read_cql_null|apply read_cql_unset]).
+      rewrite Hr. cbn [cell_of_raw rbind]. rewrite of_nat_S_pred, IH.
+      * cbn [map]. rewrite Hg. reflexivity.
+      * assert (List.length mk = 4%nat) by (destruct Hmk as [-> | ->]; apply enc_signed_length).
+        rewrite app_length in Hfuel. lia.
+    + rewrite read_cql_framed by exact Hb. cbn [cell_of_raw]. rewrite Hf. cbn [rbind].
+      rewrite of_nat_S_pred, IH.
+      * cbn [map]. rewrite Hg. reflexivity.
+      * rewrite app_length, framed_length in Hfuel. lia.
+Qed.
+
+(* Vec<Option<T>> / Vec<MaybeUnset<T>> bound to a list or set: nulls at every element position *)
+Theorem roundtrip_sequence_cells e cs b :
+  wf_type e = true -> Forall (cell_ok e) cs -> ser_sequence_cells e cs = Ok b ->
+  exists body, b = framed body /\ blen body <= i32_max /\
+               deser_listlike_cells e body = Ok (map (pad_cell e) cs).
+Proof.
+  intros Hwe Hcs Hser. unfold ser_sequence_cells in Hser.
+  destruct (i32_max <? _) eqn:En; [discriminate|]. apply N.ltb_ge in En.
+  apply rbind_ok in Hser as (bs & Hbs & Hser). apply rbind_ok in Hser as (body & Hf & Hser). inv Hser.
+  apply finish_ok in Hf as [-> Hb]. specialize (Hb eq_refl).
+  exists (be32 (N.of_nat (List.length cs)) ++ bs). split; [reflexivity|]. split; [exact Hb|].
+  apply ser_concat_ok in Hbs as (ps & HF & ->).
+  unfold deser_listlike_cells, read_count. rewrite read_int_be32 by exact En.
+  destruct (Z.of_N _ <? 0)%Z eqn:E; [lia|]. cbn [rbind fst snd]. rewrite N2Z.id.
+  rewrite <- (app_nil_r (concat ps)). apply deser_items_cells_rt.
+  - eapply Forall2_impl_In; [exact HF|]. intros c p Hc _ Hp.
+    rewrite Forall_forall in Hcs. specialize (Hcs c Hc).
+    pose proof (ser_cell_ws_true_inv e c p Hcs Hp) as Hi.
+    destruct c as [| |v]; cbn [pad_cell].
+    + left. exists null_marker. auto.
+    + left. exists unset_marker. auto.
+    + right. destruct Hi as (bx & Hbx & -> & Hl). destruct Hcs as [Hw Hk].
+      exists bx, (pad e v). repeat split; try assumption.
+      apply (roundtrip_value e true v bx Hwe Hw Hk Hbx (i32_lt_two64 _ Hl)).
+  - rewrite app_nil_r, app_length. lia.
+Qed.
+
+Theorem conforms_sequence_cells e cs b :
+  wf_type e = true -> Forall (cell_ok e) cs -> ser_sequence_cells e cs = Ok b ->
+  enc_seq_cells_spec e cs = Some b.
+Proof.
+  intros Hwe Hcs Hser. unfold ser_sequence_cells in Hser.
+  destruct (i32_max <? _) eqn:En; [discriminate|]. apply N.ltb_ge in En.
+  apply rbind_ok in Hser as (bs & Hbs & Hser). apply rbind_ok in Hser as (body & Hf & Hser). inv Hser.
+  apply finish_ok in Hf as [-> Hb]. specialize (Hb eq_refl).
+  apply ser_concat_ok in Hbs as (ps & HF & ->).
+  unfold enc_seq_cells_spec. rewrite (opt_concat_map _ cs ps).
+  - cbn [option_map spec_value]. rewrite framed_spec by exact Hb. rewrite be32_spec by exact En.
+    rewrite nat_N_Z. reflexivity.
+  - eapply Forall2_impl_In; [exact HF|]. intros c p Hc _ Hp.
+    rewrite Forall_forall in Hcs. specialize (Hcs c Hc).
+    pose proof (ser_cell_ws_true_inv e c p Hcs Hp) as Hi.
+    destruct c as [| |v].
+    + subst p. reflexivity.
+    + subst p. reflexivity.
+    + destruct Hi as (bx & Hbx & -> & Hl). destruct Hcs as [Hw Hk].
+      rewrite (conforms_value e true v bx Hwe Hw (known_class_hole _ _ Hk) Hbx (i32_lt_two64 _ Hl)).
+      cbn [option_map]. rewrite framed_spec by exact Hl. reflexivity.
+Qed.
+
+(* the three domain exclusions of [wf]: accepted by the writer, not read back *)
+Lemma outside_ascii : exists v b,
+  rust_native NAscii v = true /\ domain_excl NAscii v = true /\
+  ser_value true (TNative NAscii) v = Ok b /\ deser_value (TNative NAscii) b = Err DE_ExpectedAscii.
+Proof. exists (CText [195; 169]), [195; 169]. repeat split; vm_compute; reflexivity. Qed.
+
+Lemma outside_time : exists v b,
+  rust_native NTime v = true /\ domain_excl NTime v = true /\
+  ser_value true (TNative NTime) v = Ok b /\ deser_value (TNative NTime) b = Err DE_ValueOverflow.
+Proof. exists (CTime 86400000000000), [0; 0; 78; 148; 145; 79; 0; 0]. repeat split; vm_compute; reflexivity. Qed.
+
+Lemma outside_varint : exists v b,
+  rust_native NVarint v = true /\ domain_excl NVarint v = true /\
+  ser_value true (TNative NVarint) v = Ok b /\ deser_value (TNative NVarint) b = Ok CEmpty.
+Proof. exists (CVarint []), []. repeat split; vm_compute; reflexivity. Qed.
+
+(* through a sized writer the 2^64 premise is discharged by the i32 check of the writer itself *)
+Lemma roundtrip_value_sized t v b :
+  wf_type t = true -> wf_val t v = true -> known_class t v = false ->
+  ser_value true t v = Ok b -> deser_value t b = Ok (pad t v).
+Proof.
+  intros Hwt Hwf Hk Hser. apply (roundtrip_value t true v b Hwt Hwf Hk Hser).
+  apply i32_lt_two64. eapply ser_sized_bound; eassumption.
+Qed.
+
+Lemma conforms_value_sized t v b :
+  wf_type t = true -> wf_val t v = true -> vector_hole t v = false ->
+  ser_value true t v = Ok b -> Enc t v b.
+Proof.
+  intros Hwt Hwf Hk Hser. apply (conforms_value t true v b Hwt Hwf Hk Hser).
+  apply i32_lt_two64. eapply ser_sized_bound; eassumption.
+Qed.
